@@ -67,6 +67,7 @@ type PgWorld struct {
 	Panics   []string
 	Stacks   []string
 	runRef   *SessionRunRef
+	delivered map[string]int
 	chunkMod int // 0: whole, 1: small chunks, 2: byte by byte
 	maxSteps int
 }
@@ -307,7 +308,11 @@ func (pw *PgWorld) RunSession(clientID string, script []Stmt) *SessionRun {
 			break
 		}
 		s := en[w.Choose(len(en))]
+		pw.applyStreamFaults(s, []*SimConn{cEnd, pcEnd, pdEnd, dEnd})
 		n := s.pending()
+		if n == 0 {
+			continue
+		}
 		k := n
 		switch pw.chunkMod {
 		case 1:
@@ -335,6 +340,50 @@ func (pw *PgWorld) RunSession(clientID string, script []Stmt) *SessionRun {
 		synctest.Wait()
 	}
 	return run
+}
+
+// applyStreamFaults applies the plan's network faults to a stream that is
+// about to deliver: "corrupt" flips bits of one in-flight byte (Arg = offset<<8
+// | mask), "cut" closes the connection (EOF for the reader, error for the writer).
+func (pw *PgWorld) applyStreamFaults(s *stream, conns []*SimConn) {
+	w := pw.W
+	if pw.delivered == nil {
+		pw.delivered = map[string]int{}
+	}
+	pw.delivered[s.name]++
+	for i := range w.Plan.Faults {
+		f := &w.Plan.Faults[i]
+		if f.Site != s.name || f.Nth != pw.delivered[s.name] {
+			continue
+		}
+		switch f.Kind {
+		case "corrupt-payload", "tiny-length":
+			if s.name == "client->proxy-c" && pw.delivered[s.name] == 1 {
+				continue // the startup message has no type byte
+			}
+			tiny := -1
+			if f.Kind == "tiny-length" {
+				tiny = int(f.Arg) % 4
+			}
+			if s.corruptFramed(int(f.Arg>>8), byte(f.Arg)|1, tiny) {
+				w.Res.Fired[f.Kind]++
+				w.Event(0, "FAULT "+f.Kind+" "+s.name, fmt.Sprintf("pick=%d mask=%02x", f.Arg>>8, byte(f.Arg)|1))
+			}
+		case "corrupt":
+			if s.corrupt(int(f.Arg>>8), byte(f.Arg)|1) {
+				w.Res.Fired["corrupt-byte"]++
+				w.Event(0, "FAULT corrupt "+s.name, fmt.Sprintf("off=%d mask=%02x", f.Arg>>8, byte(f.Arg)|1))
+			}
+		case "cut":
+			for _, c := range conns {
+				if c.wr == s {
+					c.Close()
+				}
+			}
+			w.Res.Fired["connection-cut"]++
+			w.Event(0, "FAULT cut "+s.name, "")
+		}
+	}
 }
 
 func (pw *PgWorld) recoverActor(who string) {
